@@ -201,7 +201,8 @@ func (x *fnExec) execInstr(st *State, in ssa.Instruction) bool {
 		v.decls.add("fun:CH_cap", "(declare-fun CH_cap (Int) Int)")
 		st.assume(eq("(CH_cap "+r+")", sz.S))
 		st.vals[i] = mkTerm(r, sInt, i.Type())
-		if !chanEscapes(x.fn, i.Type()) {
+		// (a channel made by a callee whose body is executed inline is handed out by that callee: it escapes)
+		if i.Parent() == x.fn && !chanEscapes(x.fn, i.Type()) {
 			st.localChans = append(st.localChans, r)
 			x.v.note("%s: channel of type %s made here does not escape: a receive that reports 'closed' while neither this function nor its go-routines closed it would block forever (partial correctness)", x.fnName(), i.Type())
 		}
